@@ -23,7 +23,7 @@ var HoleArg = &core.Rule{Name: "R-HOLEARG", Run: runHoleArg,
 	Doc: "in arrayObject's methods an element loaded from .values is compared with nil before it is passed to a call or used as an interface receiver"}
 
 func runHoleArg(p *core.Prog) *core.Result {
-	res := core.NewResult("R-HOLEARG", 3)
+	res := core.NewResult("R-HOLEARG", 2)
 	af, err := loadArrFields(p)
 	if err != nil {
 		return res.Fail(err)
